@@ -27,14 +27,8 @@ ASSUMPTIONS = [
     "the basis up to the length at which avoidance is decided; otherwise the oracle is silent",
 ]
 PARTIAL = [
-    "verdict_matches_simples (Brignall-Ruskuc-Vatter + Schmerl-Trotter): has_finite_simples B <-> Av(B) has finitely many "
-    "simple permutations -- evaluated against brute-force counts of simples up to length 9 and explicit families. PROVED part: "
-    "special test False => simples of Av(B) in every length n>=4 of one parity, hence in one of every two consecutive lengths "
-    "and beyond every bound (special_false_simples_one_parity/_consecutive/_unbounded, verdict_false_by_special_correct, "
-    "av_false_by_special_correct). NOT proved: pin half False => infinitely many simples; verdict True => finitely many",
-    "pin_D8_invariant: has_finite_pinperms is invariant under the eight symmetries / depends only on the class -- correspondence "
-    "over images only; hasFiniteSimples_act / hasFiniteSimples_class_only are proved RELATIVE to this hypothesis (unconditional "
-    "when a dfa is supplied)",
+    'verdict_matches_simples (Brignall-Ruskuc-Vatter + Schmerl-Trotter): has_finite_simples B <-> Av(B) has finitely many simple permutations -- evaluated against brute-force counts of simples up to length 9 and explicit families. PROVED part: special test False => simples of Av(B) in every length n>=4 of one parity, hence in one of every two consecutive lengths and beyond every bound (special_false_simples_one_parity/_consecutive/_unbounded, verdict_false_by_special_correct, av_false_by_special_correct). NOT proved: pin half False => infinitely many simples; verdict True => finitely many',
+    "pin_D8_invariant is now PROVED: C14.hasFinitePinperms_act (has_finite_pinperms (B.map g) = has_finite_pinperms B for the eight symmetries) and C14.hasFinitePinperms_class_only (bases with the same avoiders get the same verdict) - these discharge the hypothesis hpin of C16.hasFiniteSimples_act / hasFiniteSimples_class_only for dfa = none (the theorems in Props/C16.lean keep hpin as a hypothesis because Props/C14 imports C16's lemmas, not the other way round)",
 ]
 TRUSTED = ["is_polynomial (C13) is taken as an input of Av.has_finitely_many_simples"]
 
